@@ -156,6 +156,13 @@ def parse_message(
     if not isinstance(data, dict):
         raise ValueError("Message must be a dict or list")
 
+    # An object that is neither a request/notification (method) nor a
+    # response (id with result or error) is not a JSON-RPC message at all
+    if "method" not in data and not (
+        "id" in data and ("result" in data or "error" in data)
+    ):
+        raise ValueError("Invalid JSON-RPC message structure")
+
     # For backward compatibility, try to parse with JSONRPCMessage first
     try:
         return JSONRPCMessage.model_validate(data)  # type: ignore[attr-defined]
